@@ -96,7 +96,7 @@ static Cfg gen(Rng &r, bool exact, int maxn) {
   Cfg c; c.box = M::Zero();
   double L[3];
   for (int i = 0; i < 3; i++) { L[i] = exact ? std::ldexp(1.0, (int)r.range(1, 3)) : 2 + r.unit() * 6; c.box(i, i) = L[i]; }
-  if (r.coin(1, 3)) {
+  if (r.coin(1, 2)) {
     c.box(0, 1) = exact ? L[0] * dy(r, -4, 4, 8) : (r.unit() - 0.5) * L[0];
     c.box(0, 2) = exact ? L[0] * dy(r, -4, 4, 8) : (r.unit() - 0.5) * L[0];
     c.box(1, 2) = exact ? L[1] * dy(r, -4, 4, 8) : (r.unit() - 0.5) * L[1];
@@ -128,6 +128,13 @@ static Cfg gen(Rng &r, bool exact, int maxn) {
       else if (kind == 1) { d(o) = c.rc * 0.6; d((o + 1) % 3) = c.rc * 0.8; }
       else { d(o) = c.rc * 5 / 13; d((o + 2) % 3) = -c.rc * 12 / 13; }
       c.pos.back() = c.pos[r.below(i)] + d * (r.coin() ? 1.0 : -1.0);
+    }
+    if (pk == 4 && i > 0) {   // just inside the cutoff, any direction: the pairs a too-thin cell grid loses first
+      V d(r.unit() - 0.5, r.unit() - 0.5, r.unit() - 0.5);
+      if (exact) { d = V::Zero(); d((int)r.below(3)) = r.coin() ? 1 : -1; }
+      if (d.norm() < 1e-3) d = V(0, 0, 1);
+      d = d.normalized() * (exact ? c.rc - 1.0 / 64 : c.rc * (0.9 + 0.0999 * r.unit()));
+      c.pos.back() = c.pos[r.below(i)] + d;
     }
     c.type.push_back((int)r.below(3));
     c.mol.push_back((int)r.below(nmol));
